@@ -144,6 +144,11 @@ Proof.
     destruct ids as [|g [|g2 r]]; try reflexivity. destruct (do_shift_left (sz s) (rel s) (gget s u (Z.to_nat g)) x a). cbn [fst]. same_ecore.
   - destruct (vmux s u); [|reflexivity]. unfold step_mux_shift. destruct (ugids s u x) as [ids|]; [|reflexivity].
     destruct ids as [|g [|g2 r]]; try reflexivity. destruct (do_shift_right (sz s) (rel s) (mux_gsize s u) (gget s u (Z.to_nat g)) x a). cbn [fst]. same_ecore.
+  - destruct (vmsg s m); [|reflexivity]. unfold step_resize_bus. destruct (bytes <? 0); [reflexivity|]. destruct (gbytes s m =? bytes); [reflexivity|].
+    destruct (2 ^ 60 - 1 <? bytes); [reflexivity|]. destruct (lim <? bytes); [reflexivity|].
+    unfold step_resize. destruct (bytes <? 0); [reflexivity|]. destruct (gbytes s m =? bytes); [reflexivity|]. destruct (2 ^ 60 - 1 <? bytes); [reflexivity|].
+    destruct (verify_resize (sz s) (rel s) (glsize s m) (glay s m) (bytes * 8)); [reflexivity|]. cbn [fst]. same_ecore.
+  - destruct (vsig s x); reflexivity.
 Qed.
 
 (* --- positions -------------------------------------------------------------------------------------- *)
@@ -247,4 +252,9 @@ Proof.
     destruct (do_shift_right (sz s) (rel s) (mux_gsize s u) (gget s u (Z.to_nat g)) x a) as [pos d] eqn:E. cbn in Hy.
     assert (Ep : pos = fst (do_shift_right (sz s) (rel s) (mux_gsize s u) (gget s u (Z.to_nat g)) x a)) by (rewrite E; reflexivity).
     destruct (Nat.eq_dec y x) as [Ex|NE]; [exact Ex|]. exfalso. apply Hy. rewrite Ep. apply do_shift_right_frame. exact NE.
+  - apply Hy. destruct (vmsg s m); [|reflexivity]. unfold step_resize_bus. destruct (bytes <? 0); [reflexivity|]. destruct (gbytes s m =? bytes); [reflexivity|].
+    destruct (2 ^ 60 - 1 <? bytes); [reflexivity|]. destruct (lim <? bytes); [reflexivity|].
+    unfold step_resize. destruct (bytes <? 0); [reflexivity|]. destruct (gbytes s m =? bytes); [reflexivity|]. destruct (2 ^ 60 - 1 <? bytes); [reflexivity|].
+    destruct (verify_resize (sz s) (rel s) (glsize s m) (glay s m) (bytes * 8)); reflexivity.
+  - apply Hy. destruct (vsig s x); reflexivity.
 Qed.
